@@ -15,10 +15,23 @@ def _spawner(s):
     return spawn
 
 
+def fine_attrs(tr):
+    """Attribute names whose accesses get opcode granularity: the recorder's per-recording state. If those names are gone (a rename),
+    every private instance attribute of the recorder that is not a collaborator object is taken instead."""
+    import threading
+    have = [a for a in FINE_ATTRS if a in vars(tr)]
+    if have:
+        return tuple(have)
+    return tuple(k for k, v in vars(tr).items() if k.startswith('_') and not isinstance(v, threading.local) and not hasattr(v, 'getrandbits')
+                 and not hasattr(v, 'create_new_recording'))
+
+
 def record_under(prog, prefix, fine=False, max_steps=8000):
     """Records prog (with 'par' steps) on a fresh real recorder under the schedule `prefix`."""
     s = S.Sched(prefix, trace_files=TRACE_FILES, opcode_attrs=FINE_ATTRS if fine else (), max_steps=max_steps)
     env = P.Env(name=prog.get('cls', 'Op'), kind=prog.get('kind', 'inst'), ext=prog.get('ext'), params=prog.get('params'), funcs=prog.get('funcs'))
+    if fine:
+        s.opcode_attrs = set(fine_attrs(env.tr))
     P.RT.reset()
     P.RT.spawn = _spawner(s)
     box = {}
@@ -38,6 +51,8 @@ def replay_under(stored, rec_id, prog, prefix, fine=False, max_steps=8000):
     s = S.Sched(prefix, trace_files=TRACE_FILES, opcode_attrs=FINE_ATTRS if fine else (), max_steps=max_steps)
     inner = copy.deepcopy(stored)
     env = P.Env(inner=inner, kind=prog.get('kind', 'inst'), funcs=prog.get('funcs'), enabled=False)
+    if fine:
+        s.opcode_attrs = set(fine_attrs(env.tr))
     P.RT.reset()
     P.RT.spawn = _spawner(s)
     box = {}
